@@ -147,6 +147,18 @@ def _jac(ctx, p, rng):
         if not ok:
             ctx.violation('jac_vec:value', {'N': N, 'M': M, 'm': m, 'got': float(Jv[m]), 'want': float(ref)}); return
     ctx.ok('jac_vec', ('jv', N, M, p['point'], style))
+    # a scalar point (a function of one variable seeded as in init_jac_vec(2.5, 1.0)), also as a zero-dimensional array
+    x0s = float(x[0]); v0s = float(v[0])
+    for form, (a_, b_) in (('python floats', (x0s, v0s)), ('0-d arrays', (np.array(x0s), np.array(v0s))), ('int point', (int(round(x0s)), v0s))):
+        try:
+            Xq = UTPM.init_jac_vec(a_, b_)
+            r = np.asarray(UTPM.extract_jac_vec(Xq * Xq * Xq + 2 * Xq))
+        except Exception as e:
+            ctx.violation('jac_vec:scalar-point:raises', {'form': form, 'error': repr(e)[:200]}); return
+        want = (3 * float(a_) ** 2 + 2) * v0s
+        if r.shape != () or not abs(float(r) - want) <= 1e-13 * (abs(want) + abs(3 * float(a_) ** 2 * v0s) + 1e-300):
+            ctx.violation('jac_vec:scalar-point:value', {'form': form, 'x': float(a_), 'v': v0s, 'got': r.tolist(), 'want': want}); return
+    ctx.ok('jac_vec', ('jv-scalar-point', p['point']))
     # the value of the program may have any shape: a scalar (one polynomial, evaluated to a scalar), a matrix (outer product of
     # the value vector with itself) - the Jacobian-vector product has the shape of the value
     try:
@@ -284,11 +296,14 @@ def _tensor(ctx, p, rng):
         no = [False, np.False_, 0, np.int64(0), (np.arange(3) == 7)[0]][int(rng.integers(5))]
         yes = [True, np.True_, 1, (np.arange(3) == 2)[2]][int(rng.integers(4))]
         T1 = np.asarray(UTPM.extract_tensor(N, Y, as_full_matrix=no))
-        Hf = np.asarray(UTPM.extract_tensor(N, Y, as_full_matrix=yes)) if d == 2 else None
+        # the full symmetric tensor (the default form; the Hessian for d = 2), for every order as long as it stays small
+        full_ok = N ** d <= 400 and d <= 5          # (the library enumerates all d! orderings of an index tuple)
+        Hf = np.asarray(UTPM.extract_tensor(N, Y, as_full_matrix=yes) if rng.random() < 0.5 else UTPM.extract_tensor(N, Y)) if full_ok else None
         T2 = np.asarray(UTPM.extract_tensor(N, Y, as_full_matrix=False))      # again: must not depend on earlier extractions
         # a matrix-valued program (the outer product of (p, 2p) with itself): one table of partial derivatives per entry
         Yv = PP.evaluate(algopy, [poly, poly], X, -1 - style)
         Tm = np.asarray(UTPM.extract_tensor(N, algopy.outer(Yv, Yv * np.array([1.0, 2.0])), as_full_matrix=False))
+        Hm = np.asarray(UTPM.extract_tensor(N, algopy.outer(Yv, Yv * np.array([1.0, 2.0])))) if full_ok else None
     except Exception as e:
         ctx.violation('tensor:raises:' + type(e).__name__, {'N': N, 'd': d, 'error': repr(e)[:200]}); return
     if T1.shape != (len(J),):
@@ -326,8 +341,19 @@ def _tensor(ctx, p, rng):
         ctx.violation('tensor:matrix-valued:value', {'N': N, 'd': d, 'max_abs_difference': float(np.max(np.abs(Tm - Tpp[:, None, None] * kk[None])))}); return
     ctx.ok('tensor', ('tensor-matrix-valued', N, d))
     if Hf is not None:
-        if Hf.shape != (N, N):
-            ctx.violation('tensor_full:shape', {'got': Hf.shape}); return
+        # entry (i_1, ..., i_d) of the full tensor is the partial derivative d^d f / dx_{i_1} ... dx_{i_d} = alpha! * packed[alpha]
+        import itertools
+        pos = {a: k for k, a in enumerate(J)}
+        if Hf.shape != (N,) * d or Hm.shape != (N,) * d + (2, 2):
+            ctx.violation('tensor_full:shape', {'N': N, 'd': d, 'got': [list(Hf.shape), list(Hm.shape)], 'want': [[N] * d, [N] * d + [2, 2]]}); return
+        for idx in itertools.product(range(N), repeat=d):
+            a = tuple(idx.count(n) for n in range(N))
+            fac = math.prod(math.factorial(k) for k in a)
+            if not (abs(Hf[idx] - fac * T1[pos[a]]) <= 1e-12 * (abs(fac * T1[pos[a]]) + 1e-300) and
+                    np.all(np.abs(Hm[idx] - fac * Tm[pos[a]]) <= 1e-12 * (np.abs(fac * Tm[pos[a]]) + 1e-300))):
+                ctx.violation('tensor_full:entry-vs-packed', {'N': N, 'd': d, 'index': list(idx), 'alpha': a, 'got': float(Hf[idx]), 'want': float(fac * T1[pos[a]])}); return
+        ctx.ok('tensor_full', ('tensor_full', N, d, p['point']))
+    if Hf is not None and d == 2:
         for i in range(N):
             for j in range(N):
                 ref = poly.diff(i).diff(j)(xq)
